@@ -61,6 +61,12 @@ def r7(ctx, chk, rule):
             facts = [(" ".join(ast.unparse(a).split()), p) for t, pol in enclosing_tests(f.node, st) for a, p in conjuncts(t, pol)]
             if v in ("self.settings.RELATIVE_BASE", "settings.RELATIVE_BASE", "None"):
                 ok, why = True, ""
+            elif isinstance(st.value, ast.BoolOp) and isinstance(st.value.op, ast.Or) and len(st.value.values) == 2 \
+                    and " ".join(ast.unparse(st.value.values[0]).split()) in ("self.settings.RELATIVE_BASE", "settings.RELATIVE_BASE"):
+                # `RELATIVE_BASE or <clock>`: the given base as it is, the fallback only when there is none - both branches in one expression
+                fb = " ".join(ast.unparse(st.value.values[1]).split())
+                ok, why = "RELATIVE_BASE" not in fb and "self.now" not in fb, "fallback value %s" % fb
+                n += 1          # stands for the two assignments of the statement form
             elif ("self.now", False) in facts or ("self.settings.RELATIVE_BASE", False) in facts:
                 ok, why = "RELATIVE_BASE" not in v and "self.now" not in v, "fallback value %s" % v
             else:
@@ -306,6 +312,20 @@ def format_part_table(ctx, rule):
                 return {k: set(v) for k, v in ast.literal_eval(dm).items()}, g
             except Exception:
                 pass
+        # the table hoisted to a module-level constant: a dict, or a sequence of (part, directives) pairs, that the function reads
+        for nm in sorted({x.id for x in ast.walk(g.node) if isinstance(x, ast.Name) and isinstance(x.ctx, ast.Load)}):
+            vals = g.module.assigns.get(nm)
+            if not vals:
+                continue
+            try:
+                v = ast.literal_eval(vals[-1])
+            except Exception:
+                continue
+            if isinstance(v, dict) and {"day", "month", "year"} <= set(v):
+                return {k: set(x) for k, x in v.items()}, g
+            if isinstance(v, (tuple, list)) and v and all(isinstance(p_, (tuple, list)) and len(p_) == 2 and isinstance(p_[0], str) for p_ in v) \
+                    and {"day", "month", "year"} <= {p_[0] for p_ in v}:
+                return {p_[0]: set(p_[1]) for p_ in v}, g
         raise AnalysisError(rule, "_get_missing_parts.directive_mapping is not a literal")
     # older shape: own expressions
     table = {"day": set(), "month": set(), "year": set()}
